@@ -34,7 +34,8 @@ RULE = ('documents generated from a small grammar (sections at three levels, sta
         'families in one directory (one name a proper suffix or prefix of another, equal up to case, names containing dots) so that '
         'Compile.parse must skip exactly its own file and restore every other one; save-edit-save histories in which a label loses '
         'its number, title or macroName (heading -> starred heading / equation / item) or the document loses all labels; damaged files '
-        'rewritten by a document without labels. '
+        'rewritten by a document without labels; runs with config paux-dirs set (one or two extra directories holding other documents\' files) '
+        'next to sibling files in the working directory. '
         'Non-trivial = the case contains a fault or at least two labels.')
 TRUSTED = ['modelled, not verified: the pickle module (Section variables pickle/unpickle; single hypothesis unpickle (pickle d) = Some d; '
            'per case the real pickle.loads outcome is given to the Model as the oracle answer)',
@@ -298,7 +299,7 @@ def corrupt(b, how):
         return bytes.fromhex(how[1])
     if k == 'append':
         return (b or b'') + bytes.fromhex(how[1])
-    if k == 'pickle':
+    if k in ('pickle', 'good'):      # 'good': a well-formed file as another document would have saved it (not a fault)
         return pickle.dumps(from_json(how[1]), how[2] if len(how) > 2 else pickle.DEFAULT_PROTOCOL)
     if k == 'keep':
         return b
@@ -336,8 +337,14 @@ def js(s):
     return {'s': s}
 
 
+jd_ = None
+
+
 def jd(pairs):
     return {'d': [[js(k) if isinstance(k, str) else k, v] for k, v in pairs]}
+
+
+jd_ = jd
 
 
 def entry(rng, key, good=True):
@@ -489,11 +496,13 @@ def execute(ops, resolve=False):
                 path = op['job'] + '.paux'
                 if k == 'corrupt':
                     nb = corrupt(_read(path), op['how'])
-                    op = dict(op='set', job=op['job'], hex=None if nb is None else nb.hex(), fault=op['how'][0] != 'keep', desc=json.dumps(op['how'])[:80])
+                    op = dict(op='set', job=op['job'], hex=None if nb is None else nb.hex(), fault=op['how'][0] not in ('keep', 'good'), desc=json.dumps(op['how'])[:80])
                 if op['hex'] is None:
                     if os.path.exists(path):
                         os.remove(path)
                 else:
+                    if os.path.dirname(path):
+                        os.makedirs(os.path.dirname(path), exist_ok=True)
                     with open(path, 'wb') as fh:
                         fh.write(bytes.fromhex(op['hex']))
                 obs.append([0])
@@ -510,6 +519,8 @@ def execute(ops, resolve=False):
                     config['files']['log'] = False
                     config['general']['renderer'] = op['r']
                     config['general']['packages-dirs'] = [env['pk']]
+                    if op.get('pauxdirs'):
+                        config['general']['paux-dirs'] = list(op['pauxdirs'])
                     tex = env['Compile'].parse(job + '.tex', config)
                     doc = tex.ownerDocument
                     ctx = doc.context
@@ -779,6 +790,30 @@ def streams(rng, tier, boost):
             ops = [run_op(A, r1), run_op(gen_doc(rng, ja, nlabels=0), r1), dict(op='restore', job=ja, r=r1, pre=[]), run_op(A2, r1),
                    dict(op='restore', job=ja, r=r1, pre=[])]
         scen.append(('save-edit-save', None))
+        req.append(ops)
+
+    # --- paux-dirs (no fault): Compile.parse restores the *.paux of the working directory first, then those of every directory in
+    #     config['general']['paux-dirs'].  Files of the extra directory are the jobs 'pd/<name>' (and 'pd2/<name>'); every run of such a
+    #     scenario sets paux-dirs, so the Model's "every file but the own one" is exactly what has to be restored ------------------------
+    npd = (40 if quick else 200) * boost
+    for i in range(npd):
+        r1, r2 = rng.sample(RENDERERS, 2)
+        ja, jd, jg = pick_jobs(rng)
+        dirs = ['pd'] if i % 3 else ['pd', 'pd2']
+        A = gen_doc(rng, ja, nlabels=rng.choice([1, 2, 3]))
+        la = doc_labels(A)
+        D = gen_doc(rng, jd, nlabels=rng.choice([0, 1, 2]), refs=la[:1] + ['pd/e:x1'])
+        ops = []
+        for dname in dirs:
+            key = '%s/e:x1' % dname
+            ops.append(dict(op='corrupt', job='%s/%s' % (dname, rng.choice(['e', 'ext.v1', jg])),
+                            how=['good', jd_([[r1, jd_([[key, entry(rng, key)], [key + 'b', entry(rng, key + 'b')]])], [r2, jd_([])]])]))
+        ops.append(dict(run_op(A, r1), pauxdirs=dirs))                # sibling in the working directory
+        ops.append(dict(run_op(D, r1), pauxdirs=dirs))                # must see A's labels AND those of the extra directories
+        if i % 2:
+            ops.append(dict(run_op(A, r1), pauxdirs=dirs))
+        ops.append(dict(run_op(D, r2), pauxdirs=dirs))                # other renderer: empty sections only
+        scen.append(('paux-dirs', None))
         req.append(ops)
 
     # --- clean sequences (no fault): round trip, per renderer, several documents -------------------------------------------
